@@ -120,6 +120,8 @@ type GenesisOpts struct {
 	NewAcctGas  int64
 	MaxBlockMB  int
 	NoDecay     bool // award_decay.height_gap = 0: CalcAward returns the configured award exactly (beyond 64 bit too)
+	// a decaying award: multiplied by DecayNum / DecayDen every DecayGap blocks (DecayGap 0: the default, ratio 1)
+	DecayGap, DecayNum, DecayDen int64
 }
 
 // Genesis renders the genesis JSON.
@@ -148,9 +150,13 @@ func Genesis(o GenesisOpts) []byte {
 	if o.MaxBlockMB == 0 {
 		o.MaxBlockMB = 16
 	}
-	gap := 31536000
+	gap := int64(31536000)
+	ratio := float64(1)
 	if o.NoDecay {
 		gap = 0
+	}
+	if o.DecayGap != 0 {
+		gap, ratio = o.DecayGap, float64(o.DecayNum)/float64(o.DecayDen)
 	}
 	g := map[string]interface{}{
 		"version":                      "1",
@@ -159,7 +165,7 @@ func Genesis(o GenesisOpts) []byte {
 		"award":                        o.Award,
 		"decimals":                     "8",
 		"nofee":                        o.NoFee,
-		"award_decay":                  map[string]interface{}{"height_gap": gap, "ratio": 1},
+		"award_decay":                  map[string]interface{}{"height_gap": gap, "ratio": ratio},
 		"gas_price":                    map[string]interface{}{"cpu_rate": 1000, "mem_rate": 1000000, "disk_rate": 1, "xfee_rate": 1},
 		"new_account_resource_amount": o.NewAcctGas,
 		"irreversibleslidewindow":      fmt.Sprint(o.Window),
